@@ -6,6 +6,12 @@ sys.path.insert(0, ROOT)
 from vlib import manifest_data as M
 from vlib import props as P
 
+def theorem_text(i):
+    th = P.PROPS[i].get("theorems") or []
+    if not th:
+        return " No theorem is registered for this property yet: the level is the model/code correspondence plus the specification oracle."
+    return " Kernel-checked theorems (axioms audited on every run): " + "; ".join(f"{t['name'].replace('Lz4V.Props.', '')} [{t['kind']}]" for t in th) + "."
+
 props = [json.loads(l) for l in open(os.path.join(ROOT, "properties.jsonl"))]
 ids = [p["id"] for p in props]
 hooks = subprocess.run(["git", "-C", "/repo", "log", "--format=%H %s"], stdout=subprocess.PIPE).stdout.decode().splitlines()
@@ -21,7 +27,8 @@ for i in ids:
             evidence_file=f"/verif/evidence/{i}.json",
             replay_cmd_template=f"./check {i} --replay {{path}}",
             engine="lean4-proof+correspondence",
-            level_claimed=dict(category=c.get("category", "proof"), text=c["text"], design_ref=c.get("design_ref", "DESIGN.md §6 " + i)),
+            level_claimed=dict(category=c.get("category", "proof" if P.PROPS[i].get("theorems") else "translation_validation"),
+                               text=c["text"] + theorem_text(i), design_ref=c.get("design_ref", "DESIGN.md §6 " + i)),
             level_note=c["note"],
             technique=c["technique"],
         ))
